@@ -1,7 +1,8 @@
 #!/bin/bash
 # Applies every seeded change under /verif/seeded/ to /repo in turn, runs the quick check(s) named in its meta.json,
 # and restores /repo. Writes /verif/seeded/RESULTS.txt. /repo must be clean. (About 1 minute per change.)
-cd /verif || exit 2
+VERIF_HOME="${VERIF_HOME:-/verif}"; export VERIF_HOME
+cd "$VERIF_HOME" || exit 2
 : > seeded/RESULTS.txt
 for d in seeded/C*-m*; do
   checks=$(python3 -c "import json;print(' '.join(json.load(open('$d/meta.json'))['checks_run']))")
